@@ -481,7 +481,8 @@ let mt_oracle (case_toks : string list) (obs : string) : string =
     (* what each thread logged, in its order *)
     let expected = List.init threads (fun t -> List.init lines (fun k ->
         let pad = String.make (max 0 (len + (k * 7 + t * 3) mod 11 - 10)) 'x' in
-        bytes_of_string (Printf.sprintf "T%d-%d-%s\n" t k pad))) in
+        if t = 0 then bytes_of_string (Printf.sprintf "%c\n" (Char.chr (65 + k mod 26)))     (* thread 0: single letters, incl. "F", "S" *)
+        else bytes_of_string (Printf.sprintf "T%d-%d-%s\n" t k pad))) in
     if merge_check expected (lines_of stream) then "pass" else "fail output-is-not-a-merge-of-the-threads-lines"
   | _ -> "skip shape"
 
